@@ -295,6 +295,22 @@ def _rel(lib, exact):
     return abs(Fraction(float(lib)) - exact), REL_TOL * abs(exact)
 
 
+def canonical_text(name, l1, l2, dec):
+    """The text a right-justifying, blank-plus-sign, normalised-mantissa writer produces for the decoded numbers (codec only)."""
+    from mc.ref import tle_codec as tc
+
+    cos = dec["cospar"]
+    f = dict(
+        satnum="%05d" % dec["satnum"], desig=(cos[2:4] + cos[5:]) if cos else "", epoch=l1[18:32], ndot=tc.fmt_ndot(dec["ndot"] / 2),
+        nddot=tc.fmt_exp(dec["nddot"] / 6), bstar=tc.fmt_exp(dec["bstar"]), elnum=str(dec["elnum"]), i=tc.fmt_angle(dec["i"]),
+        raan=tc.fmt_angle(dec["raan"]), e=tc.fmt_ecc(dec["e"]), argp=tc.fmt_angle(dec["argp"]), M=tc.fmt_angle(dec["M"]),
+        n=tc.fmt_n(dec["n"]), revnum=str(dec["revnum"]),
+    )
+    c1, c2 = tc.encode(f)
+    cname = None if name is None else name[2:] if name.startswith("0 ") else name
+    return (cname + "\n" if cname is not None else "") + c1 + "\n" + c2
+
+
 def check_rt(idx, t, epoch=None):
     import numpy as np
     from mc.ref import tle_codec as tc
@@ -402,10 +418,23 @@ def check_rt(idx, t, epoch=None):
     if str(tc.checksum(o1)) != o1[68] or str(tc.checksum(o2)) != o2[68]:
         t.fail("tle/written-checksum", "written lines carry the correct checksum", case, [tc.checksum(o1), tc.checksum(o2)], [o1[68], o2[68]], out)
         return
+    # is the input the writer's canonical spelling?  Decided by the codec (independent of the library); the alphabet flags
+    # must agree with it -- a disagreement is a defect of this harness, whatever the library does
+    canon_text = canonical_text(name, l1, l2, dec)
+    if (text == canon_text) != canonical:
+        raise AssertionError(f"harness: alphabet 'canonical' flag disagrees with the codec: {text!r} vs {canon_text!r}")
+    if w is tle:
+        t.fail("tle/roundtrip/source-object-returned", "Tle.from_orbit builds a new Tle from the orbit's current content (never hands back its source)",
+               case, "a new Tle", "the Tle the orbit was read from")
     t.outcome(("rt", canonical, out == text))
     if out == text:
         if not canonical:
-            raise AssertionError(f"harness: alternative spelling reproduced identically, alphabet flag wrong: {text!r}")
+            # the writer must re-format the numbers; echoing a non-canonical source verbatim means it did not write at all
+            alt = [n for c, (n, k) in enumerate(zip(NAMES, idx)) if not FIELDS[c][1][k][2]]
+            for fld in alt:
+                t.fail(f"tle/roundtrip/alternative-spelling-reproduced-verbatim/{fld}",
+                       "the writer formats the orbit's fields in its own spelling (it never echoes the source text)", case, canon_text, out)
+            return
         if sum(1 for k in idx if k) == 3 and len(t.samples) < 3:
             t.sample(dict(case, written=out))
         return
@@ -794,8 +823,12 @@ def exec_history(arg):
                 orbs[-1][1:] = [_orbit_snapshot(o), True]
             elif op == "edit-attrs":
                 o = orbs[-1][0]
+                # ONLY drag terms, counters and name: date and the six elements stay what the Tle says
                 o.bstar = 1.5e-3
+                o.ndot = 2.0e-4
+                o.ndotdot = 6.0e-9
                 o.revolutions = 5
+                o.element_nb = 42
                 o.name = "EDITED"
                 orbs[-1][1:] = [_orbit_snapshot(o), True]
             elif op == "edit-element":
@@ -803,9 +836,35 @@ def exec_history(arg):
                 o[0] = float(o[0]) * 1.001 + 1e-3
                 orbs[-1][1:] = [_orbit_snapshot(o), True]
             elif op == "write-last":
-                w = Tle.from_orbit(orbs[-1][0])
+                o = orbs[-1][0]
+                w = Tle.from_orbit(o)
                 if not orbs[-1][2] and str(w) != text:
                     out.append(("write-last", "writing back an unedited orbit of the Tle reproduces its text", text, str(w)))
+                if w is T:
+                    out.append(("write-last-returns-source", "Tle.from_orbit builds a new Tle (never hands back the orbit's source Tle)",
+                                "a new Tle", "the source Tle object"))
+                # the written TLE parses back to the orbit's CURRENT fields (printed precision)
+                cur = np.array(o.copy(form="TLE", frame="TEME"), dtype=float)
+                back = np.array([w.i, w.Ω, w.e, w.ω, w.M, w.n], dtype=float)
+                d2r = math.pi / 180
+                half = [0.5e-4 * d2r, 0.5e-4 * d2r, 0.5e-7, 0.5e-4 * d2r, 0.5e-4 * d2r, 0.5e-8 * 2 * math.pi / 86400]
+                bad6 = []
+                for k in range(6):
+                    diff = abs(back[k] - cur[k]) if k in (2, 5) else abs((back[k] - cur[k] + math.pi) % (2 * math.pi) - math.pi)
+                    if not diff <= half[k] * (1 + 1e-6) + 1e-15:
+                        bad6.append(k)
+
+                def sig5(a, b):  # equal to 5 significant digits (implied-decimal fields)
+                    return a == b or abs(a - b) <= 0.5000001e-4 * abs(b)
+
+                cur_attrs = [o.bstar, o.ndot, o.ndotdot, o.revolutions, o.element_nb, o.name, str(o.date)]
+                got_attrs = [w.bstar, w.ndot, w.ndotdot, w.revolutions, w.element_nb, w.name, str(w.epoch)]
+                ok_attrs = (sig5(w.bstar, o.bstar) and abs(w.ndot - o.ndot) <= 1.0000001e-8 and sig5(w.ndotdot, o.ndotdot)
+                            and w.revolutions == o.revolutions and w.element_nb == o.element_nb and w.name == (o.name or "")
+                            and w.epoch == o.date)
+                if bad6 or not ok_attrs:
+                    out.append(("write-last-not-current-fields", "the TLE written from an orbit parses back to the orbit's CURRENT elements, "
+                                "drag terms, counters, name and epoch", [cur.tolist()] + cur_attrs, [back.tolist()] + got_attrs))
             elif op == "roundtrip":
                 w = Tle.from_orbit(T.orbit())
                 if str(w) != text:
